@@ -44,9 +44,20 @@ package baseoutput
 //@   modifies nothing
 //@ extern func (s *channels.SignalAwaitable) Signal()
 //@   modifies nothing
-//@ extern func (s *channels.SignalAwaitable) Wait(timeout time.Duration) bool
-//@   modifies nothing
-//@ extern func (s *channels.SignalAwaitable) Channel() <-chan struct{}
+// evseq: ghost clock of the hand-over events of a session end; lastwaitseq = when the end of the acknowledger was last
+// waited for, drainseq[ch] = when channel ch was last drained (util.CollectFromChannel, trusted)
+//@ ghost var evseq int
+//@ ghost var lastwaitseq int
+//@ ghost var drainseq [1099511627776]int
+//@ extern func (s *channels.AwaitableBase) Wait(timeout time.Duration) bool
+//@   modifies evseq, lastwaitseq
+//@   ghostset evseq := evseq + 1
+//@   ghostset lastwaitseq := evseq + 1
+//@ extern func util.CollectFromChannel(closedChan <-chan base.LogChunk) []base.LogChunk
+//@   modifies evseq, drainseq
+//@   ghostset evseq := evseq + 1
+//@   ghostset drainseq[ref(closedChan)] := evseq + 1
+//@ extern func (s *channels.AwaitableBase) Channel() <-chan struct{}
 //@   modifies nothing
 //@   ensures result != nil
 //@ extern func (a channels.Awaitable) Channel() <-chan struct{}
@@ -59,12 +70,16 @@ package baseoutput
 //@      && m.nonNetworkErrorsTotal != nil && m.networkErrorsTotal != nil && m.forwardAttemptsTotal != nil && m.forwardedCountTotal != nil && m.forwardedLengthTotal != nil && m.openedSessionsTotal != nil
 //@      && ref(m.forwardedCountTotal) != ref(m.forwardAttemptsTotal) && ref(m.forwardedCountTotal) != ref(m.forwardedLengthTotal) && ref(m.forwardedCountTotal) != ref(m.networkErrorsTotal)
 //@      && ref(m.forwardedCountTotal) != ref(m.nonNetworkErrorsTotal) && ref(m.forwardedCountTotal) != ref(m.queuedChunksPendingAck) && ref(m.forwardedCountTotal) != ref(m.queuedChunksLeftover)
+//@      && ref(m.acknowledgedCountTotal) != ref(m.acknowledgedLengthTotal) && ref(m.acknowledgedCountTotal) != ref(m.networkErrorsTotal) && ref(m.acknowledgedCountTotal) != ref(m.nonNetworkErrorsTotal)
+//@      && ref(m.acknowledgedCountTotal) != ref(m.queuedChunksPendingAck)
 
 // ---- acknowledger: in ordered mode (no IDs) nothing else is pending when a chunk is taken, so the chunk confirmed on the
 // next ACK is the first - the only - unacknowledged one; in ID mode the chunk confirmed is the pending chunk of that ID
 //@ func (session *clientSession) runAcknowledger()
 //@   requires sessok(session)
 //@   modifies everything
+//@   loop 1: invariant[acknowledged-count-is-the-number-of-confirmations] mval[ref(session.metrics.acknowledgedCountTotal)] - old(mval[ref(session.metrics.acknowledgedCountTotal)]) == ncalls(session.onChunkAcked) - old(ncalls(session.onChunkAcked))
+//@   loop 1: invariant sessok(session)
 //@   loop 1: invariant noids(ref(session.conn)) ==> len(pendingChunksByID) == 0
 //@   loop 1: invariant[pending-chunks-are-filed-under-their-own-id] forall k int :: rawhas(pendingChunksByID, k) ==> key(rawget(pendingChunksByID, k).ID) == k
 
@@ -89,6 +104,7 @@ package baseoutput
 //@   requires[every-taken-chunk-is-queued-or-remembered] taken(session, maybePreviousLeftovers) == nsent(session.ackerChan) - mkA + (session.lastChunk != nil ? 1 : 0)
 //@   modifies everything
 //@   ensures result != nil
+//@   ensures[ack-queue-drained-after-the-acknowledger-has-ended] drainseq[ref(old(session.ackerChan))] > lastwaitseq && lastwaitseq > old(evseq)
 
 //@ func (session *clientSession) resendLeftovers(leftovers chan base.LogChunk) (chan base.LogChunk, reconnectPolicy)
 //@   requires sessok(session) && leftovers != nil && session.lastChunk == nil && ref(leftovers) != ref(session.inputChannel) && ref(leftovers) != ref(session.ackerChan)
